@@ -58,6 +58,9 @@ def covers(ivs, lo, hi):
     return pos if pos <= hi else None
 
 
+LINCOMB_OK = set()
+
+
 def group_of(path):
     return re.sub(r"(::\{closure#\d+\})+$", "", path)
 
@@ -77,10 +80,10 @@ def run(tier, R):
             continue
         Iq = lambda s, c=cfg: "%s:%s" % (c, s)
         cover_write(F, R, Iq, backend)
-        cover_read(F, R, Iq, backend)
-        none_rule(F, R, Iq, backend, tier)
         if cfg in ("simd", "notables", "ifma") or tier == "thorough":
             lincomb(F, R, Iq, cfg)
+        cover_read(F, R, Iq, backend)
+        none_rule(F, R, Iq, backend, tier)
         if cfg == "simd" or tier == "thorough":
             import codec_rules as CR
             nr = 0
@@ -171,7 +174,10 @@ def cover_read(F, R, I_, backend):
         inst = I_("%s:[i8; %d]" % (short(grp), N))
         ivs = reads.get((grp, N), [])
         missing = sorted(p for p in pos if covers(ivs, p, p) is not None)
-        if not missing:
+        if missing and (I_(""), grp) in LINCOMB_OK:
+            # the reads were not recognised (digits reach the routine through a form the access log does not follow), but the routine's result is decided:
+            R.ok("C04.cover.read", inst, "read positions not recognised structurally; C04.lincomb decides that %s returns the full sum over all digit positions" % short(grp))
+        elif not missing:
             R.ok("C04.cover.read", inst, "all %d possibly non-zero digit positions (max %d) are read" % (len(pos), max(pos)))
         else:
             R.viol("C04.cover.read", inst, "digit position(s) %s%s can be non-zero but no execution of %s reads them: those digits are dropped from the sum"
@@ -303,6 +309,7 @@ def lincomb(F, R, I_, cfg):
         missing = [k for k in exp if got.get(k) != exp[k]]
         extra = [k for k in got if k not in exp]
         if not missing and not extra and not bad_tables:
+            LINCOMB_OK.add((I_(""), group_of(f["path"])))
             R.ok("C04.lincomb", I_(inst), "= sum 2^(w i) d_i P over %d digit terms (%d group operations, tables: %s)" % (len(exp), ip.models.group_ops, "; ".join(sorted({d for _, d in ip.models.table_checks})) or "none"))
         else:
             k = (missing or extra)[0]
